@@ -314,7 +314,7 @@ class Ctx:
             d = self.prefix[pos]
         else:
             hy = self.hyps()
-            if not smt.involves_strings(cond):
+            if not smt.has_string_terms(cond):
                 # relevance filter: over-approximates feasibility (sound), keeps branch tests out of the string solver
                 hy = [h for h in hy if not smt.involves_strings(h)]
             can_t = smt.quick_sat(hy + [cond], self.ex.branch_timeout_ms) != 'unsat'
@@ -378,6 +378,7 @@ class Ctx:
                 skolems = [j]
             elif isinstance(g, smt.Exists):
                 cands = list(self.hint_terms) + [lift(t) for t in extra_terms]
+                cands += [f(t) for f in self.term_maps for t in list(cands)]       # images under registered term maps (e.g. positions)
                 gg = z3.Or(*[g.at(t) for t in cands]) if cands else z3.BoolVal(False)
             elif isinstance(g, bool):
                 gg = z3.BoolVal(g)
@@ -441,6 +442,7 @@ class EnvView:
 class Interp:
     def __init__(self, ctx: Ctx, registry, lib):
         self.ctx = ctx
+        ctx.interp = self
         self.reg = registry      # contracts registry
         self.lib = lib           # external models: dotted name -> callable(ctx, interp, args, kwargs)
         self.dropped = Dropped()
@@ -808,6 +810,9 @@ class Interp:
                 for cn, c in snap.items():
                     if tab is None or tab.cols.get(cn) is not c:
                         raise Unsupported(f'loop #{k} writes column {cn} of {name}, which its frame does not list')
+            if 'body_obligations' in spec:
+                for cname, f in spec['body_obligations'](EnvView(fr.env), i).items():
+                    ctx.oblige(f'iter#{k}.{cname}', f, extra_terms=[i] if is_for else [])
             nxt = (i + 1) if is_for else None
             for cname, f in (inv(EnvView(fr.env), nxt) if is_for else inv(EnvView(fr.env))).items():
                 ctx.oblige(f'inv.keep#{k}.{cname}', f, extra_terms=[nxt] if is_for else [])
@@ -1350,7 +1355,18 @@ class Interp:
             return None
         fn = self.eval(e.func, fr)
         args = []
-        for a in e.args:
+        pins = getattr(getattr(fr, 'contract', None), 'arg_pins', None) or {}
+        callee_name = e.func.attr if isinstance(e.func, ast.Attribute) else (e.func.id if isinstance(e.func, ast.Name) else None)
+        for k_arg, a in enumerate(e.args):
+            pin = pins.get((callee_name, k_arg))
+            if pin is not None:
+                # assumed contract on one argument expression, pinned by its exact AST (see stmt_Assign / expr_contracts)
+                want = ast.dump(ast.parse(pin['source'].strip(), mode='eval').body)
+                if ast.dump(a) != want:
+                    raise HardUnsupported(f'pinned argument {k_arg} of {callee_name}() changed: the assumed contract "{pin["doc"]}" no longer applies')
+                self.ctx.used_expr_contracts.add(f'{fr.fi.qualname}: argument {k_arg} of {callee_name}() = {" ".join(pin["source"].split())}  ==>  {pin["doc"]}')
+                args.append(pin['value'](self, fr))
+                continue
             if isinstance(a, ast.Starred):
                 v = self.eval(a.value, fr)
                 if not isinstance(v, (list, tuple)):
